@@ -16,7 +16,7 @@
 
 // per-line bump allocator (zero-filled), reset for every op
 static char* pool; static size_t pool_cap, pool_used;
-static void* A(size_t bytes) {
+static void* palloc(size_t bytes) {
   bytes = (bytes + 31) & ~(size_t)15;
   if (pool_used + bytes > pool_cap) { fprintf(stderr, "pool exhausted\n"); exit(3); }
   void* p = pool + pool_used; pool_used += bytes; memset(p, 0, bytes); return p;
@@ -45,12 +45,12 @@ static double getf(void) {
   double x; memcpy(&x, &u, 8); return x;
 }
 static double* getfv(int n) {
-  double* v = A((n + 1) * sizeof(double));
+  double* v = palloc((n + 1) * sizeof(double));
   for (int i = 0; i < n && !bad; i++) v[i] = getf();
   return v;
 }
 static int* getiv(int n) {
-  int* v = A((n + 1) * sizeof(int));
+  int* v = palloc((n + 1) * sizeof(int));
   for (int i = 0; i < n && !bad; i++) v[i] = geti();
   return v;
 }
@@ -100,8 +100,8 @@ static mjData* get_data(void) {
 int main(void) {
   size_t cap = 1 << 22; char* line = malloc(cap);
   pool_cap = 64u << 20; pool = malloc(pool_cap);
-#define malloc(x) A(x)
-#define calloc(n, s) A((size_t)(n) * (s))
+#define malloc(x) palloc(x)
+#define calloc(n, s) palloc((size_t)(n) * (s))
   while (fgets(line, cap, stdin)) {
     bad = 0; first = 1; pool_used = 0;
     char* op = strtok_r(line, " \n", &save_ptr);
